@@ -83,7 +83,8 @@ func (h *statusSessionHandler) HandlePacket(pc *proto.PacketContext) {
 var versionName = fmt.Sprintf("Gate %s", version.SupportedVersionsString)
 
 func newInitialPing(p *Proxy, protocol proto.Protocol) *ping.ServerPing {
-	if !version.Protocol(protocol).Supported() {
+	// Advertise the client's protocol only if the proxy really speaks it; otherwise the newest one.
+	if v, ok := version.ProtocolToVersion[protocol]; !ok || v == version.Unknown || v == version.Legacy {
 		protocol = version.MaximumVersion.Protocol
 	}
 	var modInfo *modinfo.ModInfo
@@ -119,7 +120,9 @@ func (h *statusSessionHandler) handleStatusRequest(pc *proto.PacketContext) {
 
 	log := h.log
 	if h.resolvePingResponse == nil {
-		e.ping = newInitialPing(h.proxy, pc.Protocol)
+		// pc.Protocol is the decoder registry's protocol, which silently falls back to the
+		// oldest version for unknown protocols; use what the client sent in its handshake.
+		e.ping = newInitialPing(h.proxy, h.conn.Protocol())
 	} else {
 		var err error
 		var res *packet.StatusResponse
